@@ -29,15 +29,37 @@ PROP = dict(
           "<= 5 thorough under ASan (distinct and equal values), k = 5 / 6 in the unsanitized build. Random: rapidcheck histories of "
           "0..60 (quick) / 0..300 (thorough) operations on 2-D grids of side 2..12 and 3-D grids of side 2..4. Non-trivial: a "
           "history that erases an entry while at least two other entries are live and one of them shares a coordinate with it on "
-          "some axis. Distinct = distinct case encodings (hash)."),
+          "some axis. Subchecks kdq2 / kdq3 (query-interleaved histories): the same operations plus generated lookups BETWEEN the "
+          "mutations - probe(point), probe of a live entry's point, box query, battery with the live points visited in a rotated "
+          "order - and a per-case policy of what is asked after a mutation: first the points that were looked up before it (most "
+          "recent one / last three, newest or oldest first / none), then size() only, size + iteration, or the light battery (every "
+          "mutation / every 8th); the battery always runs at the end of the history. Coordinate ranges 2..97; the tree is instantiated "
+          "for Vector2/Vector3<int64_t>, Vector2/Vector3<double> (grid coordinate g -> (g - shift) * scale, scale in {0.25, 0.5, 0.125, 0.75, "
+          "0.1, 1/3, 1, 2.5}: fractional coordinates sharing integer parts, partly negative) and Vector2<uint64_t> (around 2^63, from 0, "
+          "just below 2^64); the model stays on the integer grid and the maps are strictly increasing. A quarter of the cases start "
+          "with insertions that realise a chosen tree shape by construction: a spine of up to 115 levels turning before / after by a "
+          "pattern (always after, always before, alternating, random, by axis, runs) with a 1-2 entry subtree on the other side of a "
+          "level with probability 0, 1/4, 1/2 or 1 (comb-shaped trees), side subtrees inserted at once or after the spine. Exhaustive "
+          "(kdq2): every insertion sequence of k <= 3 (quick) / 4 (thorough) cells of the 3x3 grid x every one of the 25 points of the "
+          "grid and its ring looked up, then every single mutation (erase_advance of every non-empty subset of the entries while "
+          "iterating, erase of each entry, insert at each cell), then the same lookup first and the lookups of all cells. "
+          "Distinct = distinct case encodings (hash)."),
     assumptions=["single-threaded use", "at() of an absent point throws std::out_of_range",
                  "in the exhaustive blocks the full battery runs after the insertions and after those erases that reach a state for "
                  "the first time in lexicographic order of the erase orders (the same tree is rebuilt for every order)",
-                 "k=6 (thorough) and k=5 (quick) exhaustive levels run without sanitizers: functional equality only"],
+                 "k=6 (thorough) and k=5 (quick) exhaustive levels run without sanitizers: functional equality only",
+                 "the tree is a template over the point type; besides the int64_t grids the property names it is instantiated for double and "
+                 "uint64_t coordinates obtained from the integer grid through a strictly increasing map (order, ties and half-open boxes carry "
+                 "over exactly; double coordinates are finite, |x| < 250; no NaN)",
+                 "lookups are const operations: a history may interleave them with the mutations in any order and every answer must agree "
+                 "with the linear scan at that moment"],
     min_evaluations_quick=100000,
+    min_per_check_quick={"kdq2": 100000, "kdq3": 3000},
     engine="rapidcheck + exhaustive enumerators",
     technique=("model-based stateful testing: exhaustive enumeration of insertion sequences x erase orders on a 3x3 grid + rapidcheck "
-               "random histories against a brute-force multiset with a full query battery after every mutation; ASan/UBSan at "
+               "random histories against a brute-force multiset with a full query battery after every mutation, plus histories whose lookups "
+               "are generated operations themselves (order and subset vary), tree shapes built by construction (deep combs) and double / "
+               "uint64_t coordinate instantiations; ASan/UBSan at "
                "destruction, per-history heap-block balance + LeakSanitizer; compile probe for the never-instantiated emplace"),
     level_text=("Exploration: every history runs the real template (ASan+UBSan build of the working tree) next to a plain vector and "
                 "asks every kind of query after every mutation; all histories of the stated shape on the 3x3 grid are enumerated, "
